@@ -467,7 +467,7 @@ NSHARD = 16
 
 
 def plan(tier):
-    n = 260 if tier == 'quick' else 1500
+    n = 260 if tier == 'quick' else 3000
     return [{'kind': 'machine', 'shard': i, 'examples': n} for i in range(NSHARD)]
 
 
